@@ -194,7 +194,7 @@ def run(rep, tier, root=None):
         order = Rat.const(3)
         rets = I3.returns(g, [arr, (Rat.sym("nx", ("int",)), Rat.sym("ny", ("int",))), Rat.sym("order", ("int",))])
         real_paths, cplx_paths = [], []
-        full = I3.paths(g, [arr, (Rat.sym("nx", ("int",)), Rat.sym("ny", ("int",))), Rat.sym("order", ("int",))])
+        full = I3.paths(g, [arr, (Rat.sym("nx", ("int",)), Rat.sym("ny", ("int",))), Rat.sym("order", ("int",))], split=True)
         verdicts = set()
         for conds, cnf, v in full:
             if any(c.startswith("except") for c in conds):
